@@ -189,9 +189,10 @@ def run(ctx):
     C.check(len(rr) == 1 and bool(dominated_by(ri, rr[0], calls(ri, r'ElementType::is_ref$'))), 'C05-PAIR-origins', 'remove_internal|deregisters-reference', 'remove_internal no longer removes a deleted reference from reference_origins')
     lb = P.get('AutosarModel::load_buffer_internal')
     src_ok = any(is_local_op(pl) and has_field(pl, 'ArxmlParser.references') for pos, role, pl, st_ in iter_uses(lb))
-    lins = ro_positions(lb, {'insert'})
-    lget = ro_positions(lb, {'get_mut'})
-    C.check(src_ok and len(lins) == 1 and len(lget) == 1 and bool(E.loops_containing(lb, lins)), 'C05-PAIR-origins', 'load_buffer_internal|bulk-append', 'load_buffer_internal no longer installs the parser\'s collected references')
+    # the collected references are appended to the referrer map inside a loop: get_mut + push / insert on a miss, or entry().or_default().push
+    # (whether an insert may replace a list is decided by C05-DEV-insert, bulk replacement by C05-DEV-remove)
+    lapp = ro_positions(lb, {'insert', 'get_mut', 'entry'})
+    C.check(src_ok and bool(lapp) and bool(E.loops_containing(lb, lapp)), 'C05-PAIR-origins', 'load_buffer_internal|bulk-append', 'load_buffer_internal no longer installs the parser\'s collected references')
     pe = P.get('ArxmlParser::parse_element')
     coll = False
     for pos, t in pe.iter_calls():
@@ -210,6 +211,13 @@ def run(ctx):
             continue
         ops = E.reforig_ops(b)
         for o in ops:
+            if o['how'] == 'direct' and o['op'] == 'entry':
+                # entry(k).or_default() / or_insert_with(..) keep an existing list; Entry::insert / insert_entry replace it
+                n += 1
+                tl = forward_taint(b, {o['term']['dst']['l']}, through_refs=True)
+                repl = [p2 for p2, t2 in b.iter_calls() if call_matches(t2, r'Entry<.*>::(insert|insert_entry)$|Entry::<.*>::(insert|insert_entry)$') and t2['args'] and is_local_op(t2['args'][0]) and t2['args'][0]['l'] in tl]
+                C.check(not repl, 'C05-DEV-insert', '%s|reference_origins.entry|replaces' % b.short, 'reference_origins.entry(..).insert(..) replaces the referrer list stored under the key', b.where(repl[0]) if repl else '')
+                continue
             if o['how'] != 'direct' or o['op'] != 'insert':
                 continue
             n += 1
@@ -331,16 +339,11 @@ def run(ctx):
     for col in c1:
         C.check(c1[col] and c2[col], 'C05-SIB-report', col, 'check_references (%s) and get_reference_target (%s) no longer both apply: %s' % (c1[col], c2[col], col),
                 sample={'column': col, 'check_references': c1[col], 'get_reference_target': c2[col]})
-    # a failed verification is reported / is an error
-    v = calls(cr, r'ElementType::verify_reference_dest$')
-    if v:
-        t = cr.blocks[v[0][0]]['term']
-        sw = cr.blocks[t['t']]['term']
-        ok = sw['k'] == 'switch'
-        if ok:
-            false_t = dict(sw['ts']).get('0')
-            pushes = [pos for pos, tt in cr.iter_calls() if call_matches(tt, r'Vec::<.*>::push$')]
-            ok = false_t is not None and any(p in cr.reach_from((false_t, 0), include_start=True, avoid=E.loops_containing(cr, v)) for p in pushes)
+    # a failed verification is reported: a report site is reachable from the verification call before the next referrer is examined
+    vcr = calls(cr, r'ElementType::verify_reference_dest$')
+    if vcr:
+        pushes = [pos for pos, tt in cr.iter_calls() if call_matches(tt, r'Vec::<.*>::push$')]
+        ok = any(p in cr.reach_from(vcr[0], avoid=E.loops_containing(cr, vcr)) for p in pushes)
         C.check(ok, 'C05-SIB-report', 'check_references|failed-verification-is-reported', 'a reference whose DEST does not fit the target is no longer reported')
     v = calls(gt, r'ElementType::verify_reference_dest$')
     if v:
@@ -352,9 +355,27 @@ def run(ctx):
             oks = [e['pos'] for e in E.result_exits(gt) if e['kind'] == 'ok']
             ok = false_t is not None and not any(o in gt.reach_from((false_t, 0), include_start=True) for o in oks)
         C.check(ok, 'C05-SIB-report', 'get_reference_target|failed-verification-is-Err', 'get_reference_target returns a target whose type does not fit DEST')
-    # missing DEST / missing target are reported: count of broken_refs pushes/extends
-    ext = [pos for pos, tt in cr.iter_calls() if call_matches(tt, r'Vec.*::(push|extend)')]
-    C.check(len(ext) >= 4, 'C05-SIB-report', 'check_references|four-report-sites', 'check_references has %d report sites (expected: wrong DEST, missing DEST, dead target, missing target)' % len(ext))
+    # missing DEST / dead or missing target are reported.  Path formulation (independent of how the branches are nested):
+    #  (a) inner iteration: every path from the DEST read of a live referrer to the next iteration passes the DEST verification or a report
+    #  (b) outer iteration: every path from the target lookup to the next outer iteration passes a report or enters the loop over the referrers
+    reports = [pos for pos, tt in cr.iter_calls() if call_matches(tt, r'Vec.*::(push|extend)')]
+    dest_reads = [pos for pos, t in cr.iter_calls() if call_matches(t, r'attribute_value$')]
+    lookups = [o['pos'] for o in E.ident_ops(cr) if o['op'] == 'get']
+    loops = cr.natural_loops()
+    def smallest_loop(pos):
+        ls = [(h, body) for h, body in loops if pos[0] in body]
+        return min(ls, key=lambda x: len(x[1])) if ls else None
+    if not dest_reads or not lookups or not reports:
+        C.anchor_missing('C05-SIB-report', 'check_references: DEST read / target lookup / report sites')
+    else:
+        inner = smallest_loop(dest_reads[0])
+        outer = smallest_loop(lookups[0])
+        ok_a = inner is not None and must_pass(cr, dest_reads[0], [(inner[0], 0)], through=set(reports) | set(vcr), include_start=False)
+        C.check(ok_a, 'C05-SIB-report', 'check_references|missing-or-wrong-DEST-is-reported', 'check_references can finish the examination of a live referrer without having verified its DEST against the target and without reporting it (a missing / non-enum DEST is no longer reported)',
+                cr.where(dest_reads[0]), sample={'fn': 'check_references', 'must_pass': 'verify_reference_dest or broken_refs.push on every path from the DEST read to the next referrer'})
+        ok_b = outer is not None and inner is not None and outer[0] != inner[0] and must_pass(cr, lookups[0], [(outer[0], 0)], through=set(reports) | {(inner[0], 0)}, include_start=False)
+        C.check(ok_b, 'C05-SIB-report', 'check_references|missing-or-dead-target-is-reported', 'check_references can go on to the next target path without reporting the referrers of a path that is not in the index (or whose element is gone) and without examining them',
+                cr.where(lookups[0]), sample={'fn': 'check_references', 'must_pass': 'broken_refs.extend(all referrers) or the loop over the referrers, on every path from the index lookup to the next path'})
     import scope
     scope.closed_world(C, P, 'C05-PAIR-origins')
     return C.finish('Pairing of reference-text writes and subtree edits with maintenance of the reverse reference map (dominance / all-paths queries on MIR), '
